@@ -1011,4 +1011,239 @@ theorem yield_seg : ∀ e : E, gwfA e = true → treeOk e = true → Seg (yield 
     simp only [treeOk] at ht
     simpa [yield] using seg_group _ (ih hg ht)
 
+
+/-! ## `-->` at the start of a script -/
+
+theorem isS_first (b : Tok) (hb : tokOk b = true) (hS : isS b = true) : firstC b ≠ some '>' := by
+  by_cases hp : ∃ s, b = .p s
+  · obtain ⟨s, rfl⟩ := hp
+    simp only [isS, List.contains_iff_mem] at hS
+    have : ∀ q ∈ ["!", "~", "+", "-", "++", "--", "("], firstC (.p q) ≠ some '>' := by decide
+    exact this s hS
+  · obtain ⟨c, hc, hcc⟩ := first_word b hb hS (fun s e => hp ⟨s, e⟩)
+    rw [hc]
+    intro e; injection e with e; subst e
+    rcases hcc with h | h
+    · exact absurd h (by decide)
+    · exact absurd h (by decide)
+
+/-- a tree whose terminal string is a single token is a variable or a literal: that token is no punctuator -/
+theorem single_not_punct (e : E) (hg : gwfA e = true) (ht : treeOk e = true) (t : Tok) (h : yield e = [t]) :
+    ∀ s, t ≠ .p s := by
+  have len2 : ∀ (xs : List Tok) (a : Tok) (ys : List Tok), xs ≠ [] → xs ++ a :: ys ≠ [t] := by
+    intro xs a ys hne e
+    have := congrArg List.length e
+    cases xs with
+    | nil => exact hne rfl
+    | cons x r => simp at this
+  cases e with
+  | var n => simp [yield] at h; subst h; intro s e; cases e
+  | lit l => cases l <;> simp [yield] at h <;> subst h <;> intro s e <;> cases e
+  | unary op x =>
+    have hx := (yield_seg x (by simp only [gwfA, Bool.and_eq_true] at hg; exact hg.2) (by simpa [treeOk] using ht)).piece.ne
+    simp only [yield] at h
+    split at h
+    · exact absurd h (len2 _ _ [] hx)
+    · cases hy : yield x with
+      | nil => exact absurd hy hx
+      | cons a r => rw [hy] at h; simp at h
+  | bin op x y =>
+    simp only [gwfA, Bool.and_eq_true] at hg
+    simp only [treeOk, Bool.and_eq_true] at ht
+    have hx := (yield_seg x hg.1.2 ht.1).piece.ne
+    simp only [yield, List.append_assoc, List.singleton_append] at h
+    exact absurd h (len2 _ _ _ hx)
+  | cond c x y =>
+    simp only [gwfA, Bool.and_eq_true] at hg
+    simp only [treeOk, Bool.and_eq_true] at ht
+    have hc := (yield_seg c hg.1.1.2 ht.1.1).piece.ne
+    simp only [yield, List.append_assoc, List.singleton_append] at h
+    exact absurd h (len2 _ _ _ hc)
+  | comma l =>
+    simp only [gwfA, Bool.and_eq_true, decide_eq_true_eq] at hg
+    simp only [treeOk] at ht
+    match l, hg, ht with
+    | [], hg, _ => simp at hg
+    | [_], hg, _ => simp at hg
+    | x :: y :: r, hg, ht =>
+      have hx := (yield_seg x (gwfAItems_mem _ hg.2 x (by simp)) (treeOkL_mem _ ht x (by simp))).piece.ne
+      simp only [yield, yieldSep, List.append_assoc, List.singleton_append] at h
+      exact absurd h (len2 _ _ _ hx)
+  | call f args =>
+    simp only [gwfA, Bool.and_eq_true] at hg
+    simp only [treeOk, Bool.and_eq_true] at ht
+    have hf := (yield_seg f hg.1.2 ht.1).piece.ne
+    simp only [yield, List.append_assoc, List.singleton_append] at h
+    exact absurd h (len2 _ _ _ hf)
+  | dot x n =>
+    by_cases hnum : ∃ k, x = .lit (.num k)
+    · obtain ⟨k, rfl⟩ := hnum
+      simp [yield] at h
+    · rw [yield_dot_gen x n (fun k e => hnum ⟨k, e⟩)] at h
+      simp only [gwfA, Bool.and_eq_true, decide_eq_true_eq] at hg
+      simp only [treeOk, Bool.and_eq_true] at ht
+      have hx := (yield_seg x hg.2 ht.1).piece.ne
+      exact absurd h (len2 _ _ _ hx)
+  | index x y =>
+    simp only [gwfA, Bool.and_eq_true] at hg
+    simp only [treeOk, Bool.and_eq_true] at ht
+    have hx := (yield_seg x hg.1.2 ht.1).piece.ne
+    simp only [yield, List.append_assoc, List.singleton_append] at h
+    exact absurd h (len2 _ _ _ hx)
+  | group x => simp [yield] at h
+
+theorem headOk_append (xs ys : List Tok) (h : headOk xs = true) (h2 : 2 ≤ xs.length) : headOk (xs ++ ys) = true := by
+  match xs, h, h2 with
+  | a :: b :: r, h, _ =>
+    simp only [List.cons_append]
+    unfold headOk at h ⊢
+    split
+    · rename_i b' r' heq
+      simp only [List.cons.injEq] at heq
+      obtain ⟨ha, hb, _⟩ := heq
+      subst ha; subst hb
+      simpa [headOk] using h
+    · rfl
+
+theorem headOk_of_first (xs : List Tok) (h : xs.head? ≠ some (.p "--")) : headOk xs = true := by
+  unfold headOk
+  split
+  · simp at h
+  · rfl
+
+/-- the terminal string of a tree never starts with `--` `>…` -/
+theorem yield_headOk : ∀ e : E, gwfA e = true → treeOk e = true → headOk (yield e) = true := by
+  intro e
+  induction e using Verif.Proofs.JsSemLemmas.E.ind with
+  | hvar n => intro _ _; simp [yield, headOk]
+  | hlit l => intro _ _; cases l <;> simp [yield, headOk]
+  | hgroup x _ => intro _ _; simp [yield, headOk]
+  | hun op x ih =>
+    intro hg ht
+    have hgx : gwfA x = true := by simp only [gwfA, Bool.and_eq_true] at hg; exact hg.2
+    have htx : treeOk x = true := by simpa [treeOk] using ht
+    have hx := yield_seg x hgx htx
+    by_cases hpost : op = .postinc ∨ op = .postdec
+    · have hy : yield (.unary op x) = yield x ++ [.p op.text] := by
+        rcases hpost with rfl | rfl <;> simp [yield]
+      rw [hy]
+      cases hq : yield x with
+      | nil => exact absurd hq hx.piece.ne
+      | cons a r =>
+        cases r with
+        | nil =>
+          have := single_not_punct x hgx htx a hq
+          exact headOk_of_first _ (by simp; exact fun e => this "--" e)
+        | cons b r' => rw [← hq]; exact headOk_append _ _ (ih hgx htx) (by rw [hq]; simp)
+    · obtain ⟨b, hb, hbS⟩ := hx.first
+      have hbok : tokOk b = true := hx.piece.ok b (List.mem_of_mem_head? hb)
+      have hy : yield (.unary op x) = opTok op.isWord op.text :: yield x := by
+        cases op <;> simp_all [yield]
+      rw [hy]
+      cases hq : yield x with
+      | nil => exact absurd hq hx.piece.ne
+      | cons b' r =>
+        rw [hq] at hb; simp at hb; subst hb
+        unfold headOk
+        split
+        · rename_i b2 r2 heq
+          simp only [List.cons.injEq] at heq
+          obtain ⟨_, hb2, _⟩ := heq
+          subst hb2
+          simp [isS_first b' hbok hbS]
+        · rfl
+  | hbin op x y ihx _ =>
+    intro hg ht
+    simp only [gwfA, Bool.and_eq_true] at hg
+    simp only [treeOk, Bool.and_eq_true] at ht
+    have hx := yield_seg x hg.1.2 ht.1
+    simp only [yield, List.append_assoc]
+    cases hq : yield x with
+    | nil => exact absurd hq hx.piece.ne
+    | cons a r =>
+      cases r with
+      | nil =>
+        have := single_not_punct x hg.1.2 ht.1 a hq
+        exact headOk_of_first _ (by simp; exact fun e => this "--" e)
+      | cons b r' => rw [← hq]; exact headOk_append _ _ (ihx hg.1.2 ht.1) (by rw [hq]; simp)
+  | hcond c x y ihc _ _ =>
+    intro hg ht
+    simp only [gwfA, Bool.and_eq_true] at hg
+    simp only [treeOk, Bool.and_eq_true] at ht
+    have hc := yield_seg c hg.1.1.2 ht.1.1
+    simp only [yield, List.append_assoc]
+    cases hq : yield c with
+    | nil => exact absurd hq hc.piece.ne
+    | cons a r =>
+      cases r with
+      | nil =>
+        have := single_not_punct c hg.1.1.2 ht.1.1 a hq
+        exact headOk_of_first _ (by simp; exact fun e => this "--" e)
+      | cons b r' => rw [← hq]; exact headOk_append _ _ (ihc hg.1.1.2 ht.1.1) (by rw [hq]; simp)
+  | hcomma l ih =>
+    intro hg ht
+    simp only [gwfA, Bool.and_eq_true, decide_eq_true_eq] at hg
+    simp only [treeOk] at ht
+    match l, hg, ht, ih with
+    | [], hg, _, _ => simp at hg
+    | [_], hg, _, _ => simp at hg
+    | x :: y :: r, hg, ht, ih =>
+      have hgx := gwfAItems_mem _ hg.2 x (by simp)
+      have htx := treeOkL_mem _ ht x (by simp)
+      have hx := yield_seg x hgx htx
+      simp only [yield, yieldSep, List.append_assoc]
+      cases hq : yield x with
+      | nil => exact absurd hq hx.piece.ne
+      | cons a r2 =>
+        cases r2 with
+        | nil =>
+          have := single_not_punct x hgx htx a hq
+          exact headOk_of_first _ (by simp; exact fun e => this "--" e)
+        | cons b r' => rw [← hq]; exact headOk_append _ _ (ih x (by simp) hgx htx) (by rw [hq]; simp)
+  | hcall f args ihf _ =>
+    intro hg ht
+    simp only [gwfA, Bool.and_eq_true] at hg
+    simp only [treeOk, Bool.and_eq_true] at ht
+    have hf := yield_seg f hg.1.2 ht.1
+    simp only [yield, List.append_assoc]
+    cases hq : yield f with
+    | nil => exact absurd hq hf.piece.ne
+    | cons a r =>
+      cases r with
+      | nil =>
+        have := single_not_punct f hg.1.2 ht.1 a hq
+        exact headOk_of_first _ (by simp; exact fun e => this "--" e)
+      | cons b r' => rw [← hq]; exact headOk_append _ _ (ihf hg.1.2 ht.1) (by rw [hq]; simp)
+  | hdot x n ih =>
+    intro hg ht
+    simp only [gwfA, Bool.and_eq_true, decide_eq_true_eq] at hg
+    simp only [treeOk, Bool.and_eq_true] at ht
+    by_cases hnum : ∃ k, x = .lit (.num k)
+    · obtain ⟨k, rfl⟩ := hnum
+      simp [yield, headOk]
+    · rw [yield_dot_gen x n (fun k e => hnum ⟨k, e⟩)]
+      have hx := yield_seg x hg.2 ht.1
+      cases hq : yield x with
+      | nil => exact absurd hq hx.piece.ne
+      | cons a r =>
+        cases r with
+        | nil =>
+          have := single_not_punct x hg.2 ht.1 a hq
+          exact headOk_of_first _ (by simp; exact fun e => this "--" e)
+        | cons b r' => rw [← hq]; exact headOk_append _ _ (ih hg.2 ht.1) (by rw [hq]; simp)
+  | hindex x y ihx _ =>
+    intro hg ht
+    simp only [gwfA, Bool.and_eq_true] at hg
+    simp only [treeOk, Bool.and_eq_true] at ht
+    have hx := yield_seg x hg.1.2 ht.1
+    simp only [yield, List.append_assoc]
+    cases hq : yield x with
+    | nil => exact absurd hq hx.piece.ne
+    | cons a r =>
+      cases r with
+      | nil =>
+        have := single_not_punct x hg.1.2 ht.1 a hq
+        exact headOk_of_first _ (by simp; exact fun e => this "--" e)
+      | cons b r' => rw [← hq]; exact headOk_append _ _ (ihx hg.1.2 ht.1) (by rw [hq]; simp)
+
 end Verif.Proofs.C09JsTree
